@@ -10,6 +10,7 @@ PROPS = ["MxlVerif.Props.C01", "MxlVerif.Props.C01Main"]
 
 def setup(ctx):
     ctx.build(PROPS)
+    ctx.shrinker = cc.shrink_case
     ctx.rule = (
         "random well-formed Content (vars/pars incl. initial assignments, derived chains, reactions with numeric/"
         "computed/state-dependent coefficients, multi-output surrogates, time) in shuffled declaration order x "
